@@ -20,7 +20,7 @@ NT_RULE = ('1-8 formation reactions sharing gas reference species, norm factors 
            'branch; distinct = canonical JSON')
 REQUIRED_ORACLES = ['D1', 'D2', 'D3']
 REQUIRED_CLASSES = ['scan:1D', 'scan:2D', 'var:T', 'var:P', 'var:species_kwargs', 'units:yes', 'units:no',
-                    'stable:changes', 'norms:int', 'norms:float', 'norms:huge', 'norms:tiny', 'span:max_before_min', 'span:max_after_min', 'span:with_ts', 'span:network', 'span:chain', 'span:cycle', 'span:unchained', 'span:unchained:scaled', 'span:unchained:third_decimal', 'span:unchained:twin', 'span:chain:shared_bep', 'span:cycle:shared_bep', 'reactions:duplicate',
+                    'stable:changes', 'norms:int', 'norms:float', 'norms:huge', 'norms:tiny', 'span:max_before_min', 'span:max_after_min', 'span:with_ts', 'span:network', 'span:chain', 'span:cycle', 'span:unchained', 'span:unchained:scaled', 'span:unchained:third_decimal', 'span:unchained:twin', 'span:chain:shared_bep', 'fixed:also_axis_variable', 'span:species_repeated_in_state', 'span:species_repeated_with_equal_amount', 'span:cycle:shared_bep', 'reactions:duplicate',
                     'grid:1', 'reactions:1']
 REQUIRED_PROBES = ['PhaseDiagram.get_GoRT_1D', 'PhaseDiagram.get_GoRT_2D', 'Reactions.get_E_span',
                    'Network.get_E_span']
@@ -77,7 +77,18 @@ def _gen_diagram(rng):
         fixed['T'] = round(rng.uniform(300, 3000), 2)
     if 'P' not in kinds and rng.random() < 0.5:
         fixed['P'] = S.logu(rng, 1e-3, 1e2, 4)
-    return {'kind': 'diagram', 'species': species, 'reactions': rxns, 'norms': norms,
+    also_fixed = None
+    if rng.random() < 0.3:
+        # the scanned variable is ALSO among the fixed conditions (a base dictionary passed unfiltered): the
+        # grid value is what each point is evaluated at
+        nm0, v0 = axes[rng.randrange(len(axes))]
+        if nm0 == 'T':
+            also_fixed = ['T', round(rng.uniform(300, 3000), 2)]
+        elif nm0 == 'P':
+            also_fixed = ['P', S.logu(rng, 1e-3, 1e2, 4)]
+        else:
+            also_fixed = [nm0, {'P': S.logu(rng, 1e-8, 1e2, 4)}]
+    return {'kind': 'diagram', 'also_fixed': also_fixed, 'species': species, 'reactions': rxns, 'norms': norms,
             'norms_as': rng.choice(['list', 'array']), 'norm_kind': norm_kind, 'duplicate_reaction': dup,
             'axes': [[n, v] for n, v in axes], 'fixed': fixed, 'units': rng.choice([None, None] + UNITS)}
 
@@ -94,6 +105,10 @@ def _gen_span(rng):
                 sp[key][5] += rng.uniform(-3e4, 3e4)
             species[nm] = S.make_continuous_nasa(sp)
             names.append([nm, rng.choice([1, 1, 2, 0.5, 0.33, 1.5])])
+        if rng.random() < 0.12:
+            # the same species listed twice in one state (2 H* written as H* + H*), equal or different amounts
+            nm, v = names[rng.randrange(len(names))]
+            names.append([nm, v if rng.random() < 0.6 else rng.choice([1, 2, 0.5])])
         return names
     states = [state('I%d' % i, rng.choice([1, 1, 2])) for i in range(n + 1)]
     ts = [state('TS%d' % i, 1) if rng.random() < 0.6 else None for i in range(n)]
@@ -195,7 +210,10 @@ def _diagram(spec, ctx):
     rxns, objs = _build_rxns(spec, spec['reactions'])
     norms = spec['norms'] if spec['norms_as'] == 'list' else np.array(spec['norms'])
     pdg = PhaseDiagram(reactions=rxns, norm_factors=norms)
-    axes, fixed, units = spec['axes'], spec['fixed'], spec['units']
+    axes, fixed, units = spec['axes'], dict(spec['fixed']), spec['units']
+    if spec.get('also_fixed'):
+        fixed[spec['also_fixed'][0]] = spec['also_fixed'][1]
+        ctx.cls('fixed:also_axis_variable')
     dim = len(axes)
     ctx.cls('scan:%dD' % dim, 'units:yes' if units else 'units:no', 'norms:' + spec.get('norm_kind', 'float'))
     for n, v in axes:
@@ -207,6 +225,8 @@ def _diagram(spec, ctx):
     if spec.get('duplicate_reaction'):
         ctx.cls('reactions:duplicate')
     mech = {'dim': dim, 'units': bool(units)}
+    if spec.get('also_fixed'):
+        mech['axis_variable_also_fixed'] = True
 
     def own(i, point):
         kw = dict(fixed)
@@ -307,6 +327,10 @@ def _span(spec, ctx):
     shape = spec.get('shape', 'chain')
     consumed = spec.get('consumed')
     ctx.cls('span:' + shape.split(':')[0], 'span:' + shape)
+    if any(len(set(n for n, _ in st)) < len(st) for st in states):
+        ctx.cls('span:species_repeated_in_state')
+        if any(len(set((n, v) for n, v in st)) < len(st) for st in states):
+            ctx.cls('span:species_repeated_with_equal_amount')
     rx_specs = []
     for i in range(len(ts)):
         react = states[i] if not (consumed and i >= 1) else consumed[i - 1]
